@@ -40,6 +40,7 @@ def run(ctx):
         "non-trivial = a history of >= 3 ops reaching >= 3 nodes (or a single op on a forest with >= 2 nodes); distinct by content"
     )
     ctx.budget_s = ctx.budget(900, 100)
+    _hist.fixed_histories(ctx, out, judge, _hist.STALE_HANDLE_HISTORIES)
     n = 4 if ctx.thorough else 3
     _hist.exhaustive_single_ops(ctx, out, judge, max_nodes=n, alphabet=[0, 1, 6], ops_of=lambda impl, ti: _hist.all_single_ops(impl, ti, labels=[0, 6, 2]),
                                 label_limit=6 if ctx.thorough else 2)
